@@ -114,12 +114,14 @@ class BinaryParser(object):
         :param ordering: an ordering for the variables to be parsed
         :type ordering: Ordering
         '''
-        st = ast.parse(binary_funct)
-
         try:
-            args_node = st.body[0].value.args
+            # a single expression: statements (e.g., 'f = lambda a: a') are
+            # not binary functions
+            st = ast.parse(binary_funct, mode='eval')
 
-            body_node = st.body[0].value.body
+            args_node = st.body.args
+
+            body_node = st.body.body
 
         except Exception:
             raise SyntaxError('expected a binary lambda function, got ' +
@@ -129,9 +131,11 @@ class BinaryParser(object):
         return parse_binary_expr(ordering, body_node)
 
     def parse(self, binary_expr):
-        st = ast.parse(binary_expr)
         try:
-            binary_expr_node = st.body[0].value
+            # a single expression: statements (e.g., 'a = b', 'a; b' or
+            # 'return a') are not binary expressions
+            st = ast.parse(binary_expr, mode='eval')
+            binary_expr_node = st.body
         except Exception:
             raise SyntaxError('expected a binary expression, got ' +
                               '{}'.format(binary_expr))
